@@ -25,21 +25,29 @@ LEVEL_NOTE = ('trusts: GPy as the definition of the Gaussian process, scipy norm
               'absolute tolerance 1e-8 x (kernel variance + bias)); numerically degenerate kernel matrices (LinAlgError) are skipped and counted')
 RULE = ('cases = evidence set (8-40 points, 1-4 d, smooth/noisy target, optimum inside or on a face/corner) x bounds x prior (uniform on the bounds | '
         'normal wider than the bounds) x threshold (percentile of the evidence | default) x history of 2-4 update steps (optimise or not, sampling '
-        'flag toggled, fast prediction before and after) x 16 query points; distinct = hash of the case; non-trivial = GP with >= 5 evidence points and '
+        'flag toggled, fast prediction before and after) x 16 query points; every third case is a BOLFI run end to end (fit, sample with Metropolis|NUTS, add evidence, sample again; LCBSC or an acquisition rule that never predicts) with the definition and fast-path contracts attached to the real methods; distinct = hash of the case; non-trivial = GP with >= 5 evidence points and '
         '>= 1 query inside the bounds')
 ASSUMPTIONS = ['evidence points are generated well separated with non-negligible noise']
 CONFIG = {
-    'quick': {'shards': 16, 'cases': 6, 'timeout': 900, 'floor': 40},
+    'quick': {'shards': 16, 'cases': 6, 'timeout': 900, 'floor': 40, 'case_timeout': 400},
     'thorough': {'shards': 32, 'cases': 40, 'timeout': 3400, 'floor': 500},
 }
-REQUIRED = ['gps_fitted', 'logpdf_definition_checked', 'logpdf_outside_checked', 'logpdf_on_bound_checked', 'gradient_checked',
+REQUIRED = ['bolfi_sampling_phases', 'bolfi_second_phase_after_update', 'bolfi_logpdf_points', 'bolfi_fast_predict_checked',
+            'bolfi_fast_gradient_checked', 'contract_logpdf', 'contract_predict', 'gps_fitted', 'logpdf_definition_checked', 'logpdf_outside_checked', 'logpdf_on_bound_checked', 'gradient_checked',
             'fastpath_predict_checked', 'fastpath_gradient_checked', 'evidence_order_checked', 'fast_after_update_without_slow_call',
             'shape_scalar_or_1d', 'shape_2d', 'far_tail_gradient_checked', 'default_threshold']
 
 
 def gen_cases(ctx):
     rng = ctx.rng
-    for _ in range(ctx.ncases):
+    for ci in range(ctx.ncases):
+        if ci % (6 if ctx.tier == 'quick' else 3) == 2:
+            bs = int(rng.choice([1, 2]))
+            yield {'kind': 'bolfi', 'seed': int(rng.integers(0, 10 ** 6)), 'wide': bool(rng.random() < 0.5), 'bs': bs,
+                   'init': bs * int(rng.integers(4, 8)), 'more1': bs * int(rng.integers(2, 6)), 'more2': bs * int(rng.integers(1, 4)),
+                   'ui': int(rng.choice([1, 3, 10])), 'algorithm': str(rng.choice(['metropolis', 'nuts'])), 'n_samples': int(rng.choice([12, 24])),
+                   'acq': str(rng.choice(['lcbsc', 'uniform'])), 'thr_pct': float(rng.uniform(10, 50))}
+            continue
         d = int(rng.integers(1, 5))
         yield {'d': d, 'seed': int(rng.integers(0, 2 ** 31 - 1)), 'wide': bool(rng.random() < 0.5), 'n': int(rng.integers(8, 41)),
                'corner': bool(rng.random() < 0.4), 'noise': float(rng.choice([0.05, 0.2, 0.5])),
@@ -106,7 +114,169 @@ def _compare_fast(ctx, gp, x, where):
         raise Violation('fastpath-variance-gradient', '%s: accelerated variance gradient %r, library %r' % (where, np.ravel(gv), np.ravel(gv_ref)), {'x': x})
 
 
+B2 = {'a': (0.0, 2.0), 'b': (-1.0, 1.0)}
+
+
+def _sim2(a, b, batch_size=1, random_state=None):
+    return np.column_stack([a, b]) + 0.1 * random_state.randn(batch_size, 2)
+
+
+def _bolfi_contracts(ctx, wide):
+    """Post-conditions that stay attached to the real methods while BOLFI fits and samples."""
+    from vmon.contracts import Spec
+    lo = np.array([B2['a'][0], B2['b'][0]])
+    hi = np.array([B2['a'][1], B2['b'][1]])
+
+    def prior_lp(x):
+        x = np.atleast_2d(x)
+        tot = np.zeros(len(x))
+        for i in range(2):
+            if wide:
+                tot = tot + ss.norm((lo[i] + hi[i]) / 2, hi[i] - lo[i]).logpdf(x[:, i])
+            else:
+                with np.errstate(all='ignore'):
+                    tot = tot + ss.uniform(lo[i], hi[i] - lo[i]).logpdf(x[:, i])
+        return tot
+
+    def logpdf_post(result, self, x):
+        xx = np.asarray(x, dtype=float).reshape(-1, 2)
+        got = np.ravel(result)
+        if len(got) != len(xx):
+            return 'logpdf returned %d values for %d points' % (len(got), len(xx))
+        inside = np.all((xx >= lo) & (xx <= hi), axis=1)
+        mu, var = self.model.predict(xx)
+        ref = ss.norm.logcdf((float(self.threshold) - np.ravel(mu)) / np.sqrt(np.ravel(var))) + prior_lp(xx)
+        for g, r, ins in zip(got, ref, inside):
+            ctx.event('bolfi_logpdf_points')
+            if not ins:
+                if not np.isneginf(g):
+                    return 'logpdf outside the bounds is %r, not -inf' % g
+            elif np.isfinite(r):
+                if not np.isclose(g, r, rtol=1e-10, atol=1e-10):
+                    return 'logpdf=%r but log Phi((h-mu)/sd)+log prior=%r (is_sampling=%s)' % (g, r, self.model.is_sampling)
+            elif np.isfinite(g):
+                return 'logpdf=%r where the definition gives %r' % (g, r)
+        return True
+
+    def _tols(gp):
+        scale = float(np.ravel(gp._gp.kern.rbf.variance)[0]) + float(np.ravel(gp._gp.kern.bias.variance)[0])
+        cond = float(np.linalg.cond(gp._gp.posterior.woodbury_inv))
+        return scale, cond
+
+    calls = {'n': 0}
+
+    def predict_post(result, self, x, noiseless=False):
+        if self._gp is None or not (self.is_sampling and self._kernel_is_default) or noiseless:
+            return True
+        calls['n'] += 1
+        if calls['n'] % 3 and calls['n'] > 30:
+            return True          # every third call is compared with the library (the first 30 of a run all are)
+        xx = np.asarray(x, dtype=float).reshape(-1, self.input_dim)
+        scale, cond = _tols(self)
+        if not np.isfinite(cond) or cond > 1e13:
+            ctx.event('bolfi_fast_skipped_ill_conditioned')
+            return True
+        mu_ref, var_ref = self._gp.predict(xx)
+        ctx.event('bolfi_fast_predict_checked')
+        mu, var = result
+        e = max(1e-9, 100 * np.finfo(float).eps * cond)
+        if not np.allclose(np.ravel(mu), np.ravel(mu_ref), rtol=1e-7, atol=e * (1 + np.abs(mu_ref).max())):
+            return 'accelerated mean %r, library %r' % (np.ravel(mu)[:3], np.ravel(mu_ref)[:3])
+        if not np.allclose(np.ravel(var), np.ravel(var_ref), rtol=1e-6, atol=scale * max(1e-8, 100 * np.finfo(float).eps * cond)):
+            return 'accelerated variance %r, library %r' % (np.ravel(var)[:3], np.ravel(var_ref)[:3])
+        return True
+
+    def grad_post(result, self, x):
+        if self._gp is None or not (self.is_sampling and self._kernel_is_default):
+            return True
+        xx = np.asarray(x, dtype=float).reshape(-1, self.input_dim)
+        if len(xx) != 1:
+            return True
+        scale, cond = _tols(self)
+        if not np.isfinite(cond) or cond > 1e13:
+            return True
+        gm_ref, gv_ref = self._gp.predictive_gradients(xx)
+        gm_ref = gm_ref[:, :, 0]
+        gm, gv = result
+        ctx.event('bolfi_fast_gradient_checked')
+        e = max(1e-8, 100 * np.finfo(float).eps * cond)
+        if not np.allclose(np.ravel(gm), np.ravel(gm_ref), rtol=1e-6, atol=e * (1 + np.abs(gm_ref).max())):
+            return 'accelerated mean gradient %r, library %r' % (np.ravel(gm), np.ravel(gm_ref))
+        if not np.allclose(np.ravel(gv), np.ravel(gv_ref), rtol=1e-5, atol=scale * e * (1 + np.abs(gv_ref).max())):
+            return 'accelerated variance gradient %r, library %r' % (np.ravel(gv), np.ravel(gv_ref))
+        return True
+
+    return [Spec('elfi.methods.posteriors', 'logpdf', logpdf_post, 'C10', key='bolfi-logpdf-contract', owner='BolfiPosterior'),
+            Spec('elfi.methods.bo.gpy_regression', 'predict', predict_post, 'C10', key='bolfi-fastpath-contract', owner='GPyRegression'),
+            Spec('elfi.methods.bo.gpy_regression', 'predictive_gradients', grad_post, 'C10', key='bolfi-fastpath-gradient-contract', owner='GPyRegression')]
+
+
+def run_bolfi(ctx, case):
+    """BOLFI end to end: fit, sample, add evidence, sample again - with the contracts attached to the real methods."""
+    import contextlib
+    import io
+    import elfi
+    import elfi.client
+    import elfi.clients.native as nat
+    from elfi.methods.bo.acquisition import UniformAcquisition
+    from elfi.methods.bo.gpy_regression import GPyRegression
+    from elfi.model.extensions import ModelPrior
+    from vmon.contracts import attached
+    elfi.client.set_client(nat.Client())
+    m = elfi.ElfiModel(name='m')
+    for n in ('a', 'b'):
+        lo_, hi_ = B2[n]
+        if case['wide']:
+            elfi.Prior('norm', (lo_ + hi_) / 2, hi_ - lo_, model=m, name=n)
+        else:
+            elfi.Prior('uniform', lo_, hi_ - lo_, model=m, name=n)
+    S = elfi.Simulator(_sim2, m['a'], m['b'], observed=np.array([[1.5, 0.5]]), model=m, name='S')
+    elfi.Distance('euclidean', S, model=m, name='d')
+    kw = dict(batch_size=case['bs'], initial_evidence=case['init'], update_interval=case['ui'], seed=case['seed'])
+    if case['acq'] == 'uniform':
+        # an acquisition rule that never calls predict(): nothing but update() touches the surrogate between two sampling phases
+        gp = GPyRegression(['a', 'b'], bounds=B2)
+        kw.update(target_model=gp, acquisition_method=UniformAcquisition(gp, prior=ModelPrior(m), seed=case['seed']))
+    else:
+        kw.update(bounds=B2)
+    bolfi = elfi.BOLFI(m['d'], **kw)
+    mk = {'max_depth': 4} if case['algorithm'] == 'nuts' else {}
+    try:
+        with attached(ctx, *_bolfi_contracts(ctx, case['wide'])), contextlib.redirect_stdout(io.StringIO()):
+            n1 = case['init'] + case['more1']
+            bolfi.fit(n1, bar=False)
+            X1, Y1 = np.array(bolfi.target_model.X), np.array(bolfi.target_model.Y)
+            thr = float(np.percentile(Y1, case['thr_pct']))
+            s1 = bolfi.sample(case['n_samples'], n_chains=2, threshold=thr, algorithm=case['algorithm'], **mk)
+            ctx.event('bolfi_sampling_phases')
+            # with a given threshold fit() does not optimise the surrogate mean, so with an acquisition rule that never predicts
+            # nothing but update() touches the surrogate between the two sampling phases
+            bolfi.fit(n1 + case['more2'], threshold=thr, bar=False)
+            X2, Y2 = np.array(bolfi.target_model.X), np.array(bolfi.target_model.Y)
+            ctx.event('evidence_order_checked')
+            if not (np.array_equal(X2[:len(X1)], X1) and np.array_equal(Y2[:len(Y1)], Y1)) or len(X2) != n1 + case['more2']:
+                raise Violation('evidence-order', 'continuing the fit changed or reordered the earlier evidence (%d -> %d points)' % (len(X1), len(X2)))
+            s2 = bolfi.sample(case['n_samples'], n_chains=2, threshold=thr, algorithm=case['algorithm'], **mk)
+            ctx.event('bolfi_sampling_phases')
+            ctx.event('bolfi_second_phase_after_update')
+            post = bolfi.extract_posterior(thr)
+            for smp in (s1, s2):
+                lp = np.ravel(post.logpdf(smp.samples_array)) if smp is s2 else None
+                if lp is not None and not np.all(np.isfinite(lp)):
+                    raise Violation('sample-outside-posterior-support', 'BOLFI returned samples whose log posterior is not finite')
+    except np.linalg.LinAlgError:
+        raise Skip('numerically_degenerate')
+    except ValueError as e:
+        if 'NUTS: Cannot find acceptable stepsize' in str(e):
+            raise Skip('nuts_no_acceptable_stepsize')
+        raise
+    ctx.nontrivial(True)
+    ctx.distinct('config', 'bolfi|%s|%s|%s' % (case['algorithm'], case['acq'], case['wide']))
+
+
 def run_case(ctx, case):
+    if case.get('kind') == 'bolfi':
+        return run_bolfi(ctx, case)
     import elfi
     from elfi.methods.bo.gpy_regression import GPyRegression
     from elfi.methods.posteriors import BolfiPosterior
